@@ -46,8 +46,8 @@ def main(argv):
         for f in corpus_src: lines += run_harness(v, ['text', f], seed)
         for f in corpus_times: lines += run_harness(v, ['times', f], seed)
         if not replay:
-            n = {'quick': (1500, 1500, 2500), 'thorough': (10000, 10000, 20000)}[tier if tier in ('quick', 'thorough') else 'quick']
-            lines += run_harness(v, ['pass', n[0]], seed) + run_harness(v, ['compile', n[1]], seed) + run_harness(v, ['decomp', n[2]], seed)
+            n = {'quick': (800, 800, 1400, 10), 'thorough': (10000, 10000, 20000, 150)}[tier if tier in ('quick', 'thorough') else 'quick']
+            lines += run_harness(v, ['pass', n[0]], seed) + run_harness(v, ['compile', n[1]], seed) + run_harness(v, ['decomp', n[2]], seed) + run_harness(v, ['formats', n[3]], seed)
         for l in lines:
             parts = l.split('\t')
             if parts[0] == 'ORACLE-FAIL': oracle_fail.append(parts[1:])
@@ -61,14 +61,16 @@ def main(argv):
         if kind == 'DECOMP' or text.startswith('times='):
             # times=[..] jumps=[None, Some((tgt, t)), ..]  ->  the `times` replay file format of the harness
             import re
-            m = re.match(r'times=\[([^\]]*)\] jumps=\[(.*)\]$', text.split('\t')[0].strip())
+            m = re.match(r'times=\[([^\]]*)\] jumps=\[(.*?)\](?: masks=\[([^\]]*)\])?(?: fmt=(\w+))?$', text.split('\t')[0].strip())
             if not m: return {}
             ts = [x.strip() for x in m.group(1).split(',') if x.strip()]
-            js = re.findall(r'None|Some\(\((\d+), (-?\d+)\)\)', m.group(2))
             ent = []
             for i, mm in enumerate(re.finditer(r'None|Some\(\((\d+), (-?\d+)\)\)', m.group(2))):
                 if mm.group(1) is not None: ent.append('%d:%s@%s' % (i, mm.group(1), mm.group(2)))
-            return {'times_text': ' '.join(ts) + '\n' + ' '.join(ent) + '\n'}
+            extra = ''
+            if m.group(3) is not None: extra += 'masks: ' + ' '.join(x.strip() for x in m.group(3).split(',') if x.strip()) + '\n'
+            if m.group(4) is not None: extra += 'fmt: ' + m.group(4) + '\n'
+            return {'times_text': ' '.join(ts) + '\n' + ' '.join(ent) + '\n' + extra}
         return {'source_text': text.replace(';  ', ';\n').replace(': ', ':\n').replace('{ ', '{\n').replace('} ', '}\n')}
 
     # (O) implementation-level oracle failures: violations with a concrete input
@@ -110,11 +112,11 @@ def main(argv):
     v.coverage.update({
         'evaluations': len(cases),
         'distinct_nontrivial': distinct_count([c for c in cases if 'IOk' in c]),
-        'rule': 'PASS: seeded random nested programs (blocks, loop, while, do-while, times, if/else chains, inner function items; absolute, relative, zero, negative, hex, 2^31..2^32 literal, constant-expression, const-variable, wrapping and non-constant labels, labels at block starts and ends) parsed and run through passes::semantics::time_and_difficulty::run, the time of every statement compared with Model.Time.time_pass; COMPILE: such programs through compile_olde_ecl (TH06 ECL, 32-bit time field), marker instructions and runs of other instructions with their times compared with Model.Time.compile_items; DECOMP: random stored i32 time sequences (monotone, around zero, boundary grid, uniform i32) with random jumps (time argument = next/previous/other time, jumps to the end) injected into a compiled script, decompile_olde_ecl without block recognition, the emitted label/time-label/instruction statement sequence and the printed `@ t` compared with Model.Time.decompile_labels / label_at_offset / raise_goto_time. distinct = distinct case terms with an IOk result',
+        'rule': 'PASS: seeded random nested programs (difficulty-labelled statements and blocks, blocks, loop, while, do-while, times, if/else chains, inner function items; absolute, relative, zero, negative, hex, 2^31..2^32 literal, constant-expression, const-variable, wrapping and non-constant labels, labels at block starts and ends) parsed and run through passes::semantics::time_and_difficulty::run, the time of every statement compared with Model.Time.time_pass; COMPILE: such programs through compile_olde_ecl (TH06 ECL, 32-bit time field), marker instructions and runs of other instructions with their times compared with Model.Time.compile_items; FORMATS (counted as DECOMP cases): the same kind of stored time sequences, cut to each format's time field, through EVERY instruction format (ANM TH06/07/10/12, ECL TH06/08 subs and timelines, stack ECL TH10, STD TH06/08/12, MSG TH06/09/12) as blob instructions: source -> compile -> write -> read -> decompile -> format -> parse -> compile -> write, the statement sequence compared with the model; DECOMP: random stored i32 time sequences (monotone, around zero, boundary grid, uniform i32) with random jumps (time argument = next/previous/other time, jumps to the end) and runs of adjacent per-difficulty variants (masks splitting the low 4 / all 8 bits, the time changing inside the run or not) injected into a compiled script, decompile_olde_ecl without block recognition, the emitted label/time-label/instruction statement sequence and the printed `@ t` compared with Model.Time.decompile_labels / label_at_offset / raise_goto_time. distinct = distinct case terms with an IOk result',
         'traces_validated_against_impl': len(cases),
         'case_kinds': hist,
         'generator_stats': stats,
-        'oracle': 'compile: generator-side running sum of the labels it wrote vs read-back instruction times; decompile: decompile (with and without block recognition) -> format -> parse -> compile must give identical times, opcodes and argument blobs',
+        'oracle': 'compile: generator-side running sum of the labels it wrote vs read-back instruction times; decompile: decompile (difficulty-switch recognition on, with and without block recognition) -> format -> parse -> compile must give identical times, opcodes, difficulty masks and argument blobs; formats: the times read back from the written file are the intended ones and the recompiled binary is byte-identical, for every instruction format',
         'samples': [{'kind': k, 'case': c[:600], 'source': t[:300]} for k, c, t in list(zip(kinds, cases, texts))[:1] + list(zip(kinds, cases, texts))[-2:]],
         'exhaustive': False,
     })
